@@ -20,7 +20,10 @@ The driver executes a *timed* run of Got.Model.TaskQ: every transition goes thro
 (a disabled step is an error, reported as `E model-step-disabled`), scheduling = earliest instant first
 (maximal progress, as the Go runtime's faketime clock).  Where the model is nondeterministic – a select
 with both branches ready – the branch is taken from the implementation's observation (`out` field of the
-send), so that acceptance = the observation is a trace of the model.
+send), so that acceptance = the observation is a trace of the model.  The order in which goroutines that are ready at the
+SAME virtual instant run (several producers, the closer) is up to the Go runtime: the driver searches over these orders
+(`solve`) and accepts if some order reproduces the observation; if the search budget runs out the line is answered
+`ok unchecked …` (judged by the oracle only) — a truncated search never rejects.
 -/
 namespace Got.Drv.TaskQ
 open Got.Model.TaskQ Got.Drv
@@ -42,6 +45,9 @@ structure Scn where
   sends : Array SendSpec
   byProd : Array (Array SendSpec)
   logger : Nat := 1          -- effective error logger: 1 / 2 = the scenario's counting loggers, 0 = the default stderr logger
+  obsArr : Option (Array String) := none   -- observed channel order (labels of R then L), used to prune the search
+  obsF : Option Nat := none                -- observed number of "queue is full" log lines (all loggers)
+  putLast : Bool := false                  -- search heuristic: at a tie prefer the goroutines whose sends never arrive
 
 inductive Cons where
   | notStarted (t : Nat)
@@ -59,6 +65,8 @@ structure SRec where
 structure Sim where
   s : State
   err : Bool := false
+  dead : Bool := false               -- this order of same-instant events contradicts the observation (pruned)
+  nput : Nat := 0                    -- number of channel sends so far
   now : Nat := 0
   cursor : Array Nat
   wake : Array (Option Nat)
@@ -171,13 +179,21 @@ partial def consRecv (sc : Scn) (hints : List (String × String)) (sim : Sim) : 
       if sim.s.chan.length < sim.s.cap then
         let sim := { sim with blockedQ := rest }
         let sim := doPut sc hints sim p g
-        procProducer sc hints p sim
+        -- the released sender goes on at this instant, in any order with the other goroutines ready now
+        { sim with wake := sim.wake.set! p (some sim.now) }
       else sim
     | [] => sim
 
 partial def doPut (sc : Scn) (hints : List (String × String)) (sim : Sim) (p g : Nat) : Sim :=
   let sim := doStep sim (.put p)
   let sp := sc.sends[g]!
+  let label := if isRe sp.kind then "E" else tag (origOf sc sp)
+  let sim := match sc.obsArr with
+    | some arr => match arr[sim.nput]? with
+      | some l => if l = label then sim else { sim with dead := true }
+      | none => { sim with dead := true }
+    | none => sim
+  let sim := { sim with nput := sim.nput + 1 }
   let sim := { sim with srec := sim.srec.modify g (fun r => { r with tr := some sim.now, out := if isRe sp.kind then "ret" else "put" }),
                         cursor := sim.cursor.modify p (· + 1),
                         waiting := if isCb sp.kind then sim.waiting ++ [g] else sim.waiting }
@@ -226,6 +242,9 @@ partial def procProducer (sc : Scn) (hints : List (String × String)) (p : Nat) 
         let choice :=
           if canPut && canAbort then (if hintOf hints (tag sp) = "abort" then "abort" else "put")
           else if canPut then "put" else if canAbort then "abort" else "block"
+        let h := if sc.obsArr.isSome then hintOf hints (tag sp) else "-"
+        let sim := if (h = "put" && choice = "abort") || (h = "abort" && choice = "put") || (h = "blocked" && choice != "block")
+          then { sim with dead := true } else sim
         if choice = "put" then procProducer sc hints p (doPut sc hints sim p g)
         else if choice = "abort" then procProducer sc hints p (doAbort sc sim p g)
         else { sim with blockedQ := sim.blockedQ ++ [(p, g)], wake := sim.wake.set! p none }
@@ -277,8 +296,13 @@ def minOpt (a : Option Nat) (b : Option Nat) : Option Nat :=
   | a, none => a
   | some x, some y => some (min x y)
 
-partial def loop (sc : Scn) (hints : List (String × String)) (sim : Sim) (fuel : Nat) : Sim :=
-  if fuel = 0 then { sim with err := true } else
+inductive Ev where
+  | close
+  | cons
+  | prod (p : Nat)
+
+/-- the earliest instant at which something is scheduled and the goroutines ready at that instant -/
+def eventsAt (sc : Scn) (sim : Sim) : Option (Nat × List Ev) :=
   let tClose := if sim.closeDone then none else sc.close
   let tCons := match sim.cons with
     | .notStarted t => some t
@@ -286,28 +310,33 @@ partial def loop (sc : Scn) (hints : List (String × String)) (sim : Sim) (fuel 
     | _ => none
   let tProd := sim.wake.foldl minOpt none
   match minOpt tClose (minOpt tCons tProd) with
-  | none => sim
+  | none => none
   | some t =>
-    let sim := { sim with now := t }
-    if tClose = some t then
-      let sim := doStep sim .close
-      let bq := sim.blockedQ
-      let sim := { sim with closeDone := true, blockedQ := [] }
-      let sim := bq.foldl (fun sim pg => doAbort sc sim pg.1 pg.2) sim
-      let sim := bq.foldl (fun sim pg => procProducer sc hints pg.1 sim) sim
-      loop sc hints sim (fuel - 1)
-    else if tCons = some t then
-      let sim := match sim.cons with
-        | .notStarted _ => consRecv sc hints { sim with cons := .waiting }
-        | .busy _ g delay => consWake sc hints sim g delay
-        | _ => sim
-      loop sc hints sim (fuel - 1)
-    else
-      -- the lowest producer id whose wake instant is t
-      let p := (List.range sim.wake.size).find? (fun p => sim.wake[p]! = some t)
-      match p with
-      | some p => loop sc hints (procProducer sc hints p sim) (fuel - 1)
-      | none => { sim with err := true }
+    some (t, (if tClose = some t then [Ev.close] else []) ++ (if tCons = some t then [Ev.cons] else []) ++
+      ((List.range sim.wake.size).filter (fun p => sim.wake[p]! = some t)).map Ev.prod)
+
+/-- one goroutine runs (at sim.now) until it blocks, sleeps or ends -/
+def process (sc : Scn) (hints : List (String × String)) (sim : Sim) : Ev → Sim
+  | .close =>
+    let sim := doStep sim .close
+    let bq := sim.blockedQ
+    let sim := { sim with closeDone := true, blockedQ := [] }
+    -- every parked sender leaves through the closeChan branch; each goes on at this instant (in any order)
+    let sim := bq.foldl (fun sim pg => doAbort sc sim pg.1 pg.2) sim
+    bq.foldl (fun sim pg => { sim with wake := sim.wake.set! pg.1 (some sim.now) }) sim
+  | .cons =>
+    match sim.cons with
+    | .notStarted _ => consRecv sc hints { sim with cons := .waiting }
+    | .busy _ g delay => consWake sc hints sim g delay
+    | _ => sim
+  | .prod p => procProducer sc hints p sim
+
+/-- result of the search over the orders of same-instant goroutines -/
+structure Search where
+  found : Bool := false
+  budget : Nat
+  exhausted : Bool := false
+  cand : Option String := none     -- some complete model line (shown on reject)
 
 def render (sc : Scn) (sim : Sim) : String :=
   let sPart := sc.sends.toList.map (fun sp =>
@@ -401,7 +430,102 @@ def parseHints (impl : String) : List (String × String) :=
       | _ => none)
   | [] => []
 
-def simulate (sc : Scn) (hints : List (String × String)) : String :=
+/-- label under which the next send of producer p would appear in the channel order -/
+def nextLabel (sc : Scn) (sim : Sim) (p : Nat) : Option String :=
+  match (sc.byProd[p]!)[sim.cursor[p]!]? with
+  | some sp => if sp.kind = "nil" || sp.kind = "tn" then none else some (if isRe sp.kind then "E" else tag (origOf sc sp))
+  | none => none
+
+/-- number of sends that can still write a "queue is full" line -/
+def sendsLeft (sc : Scn) (sim : Sim) : Nat :=
+  (List.range sc.byProd.size).foldl (fun n p => n + ((sc.byProd[p]!).size - sim.cursor[p]!)) 0
+
+/-- Depth-first search over the orders in which the goroutines that are ready at the same virtual instant run (the Go
+    runtime decides that order; the harness cannot).  Every branch is a timed execution of Got.Model.TaskQ; a branch is
+    abandoned as soon as it contradicts the observation (forced select branch ≠ observed, channel order ≠ observed).
+    `found` = some order reproduces the observation exactly.  When the node budget runs out the line is NOT judged
+    (`exhausted`): a truncated search never rejects. -/
+partial def solve (sc : Scn) (hints : List (String × String)) (impl : String) (disc : Option Nat) (sim : Sim)
+    (lastPure : Option (Nat × Nat)) (st : Search) : Search :=
+  if st.found || st.exhausted then st
+  else if st.budget = 0 then { st with exhausted := true }
+  else if sim.dead then st
+  else
+    -- the log-line count is monotone: too many already, or too few even if every remaining send logged
+    let fBad := match sc.obsF with
+      | some f => decide (sim.s.fullLogs > f) || decide (sim.s.fullLogs + sendsLeft sc sim + sim.blockedQ.length < f)
+      | none => false
+    if fBad then st else
+    match eventsAt sc sim with
+    | none =>
+      let line := render sc sim
+      { st with found := impl.isEmpty || line = impl, budget := st.budget - 1, cand := match st.cand with
+                                                                                 | some c => some c
+                                                                                 | none => some line }
+    | some (t, evs) =>
+      -- preferred order at a tie: the producer whose send is the next one in the observed channel order; then the closer and
+      -- the consumer; then the producers in the order in which their next sends appear in the observed channel order
+      -- (that is the order in which they got their slot or parked in the send queue); those that never arrive last
+      let evs : List Ev := match sc.obsArr with
+        | some arr =>
+          let keyOf (p : Nat) : Nat :=
+            match nextLabel sc sim p with
+            | some l =>
+              match (List.range (arr.size - sim.nput)).find? (fun i => arr[sim.nput + i]! = l) with
+              | some i => i
+              | none => arr.size + 1 + p
+            | none => arr.size + 1 + p
+          let prods := evs.filterMap (fun e => match e with
+            | Ev.prod p => some (keyOf p, p)
+            | _ => none)
+          let others := evs.filter (fun e => match e with
+            | Ev.prod _ => false
+            | _ => true)
+          let sorted : List (Nat × Nat) := (prods.toArray.qsort (fun a b => a.1 < b.1 || (a.1 = b.1 && a.2 < b.2))).toList
+          if sc.putLast then
+            others ++ (sorted.filter (fun x => x.1 > arr.size) ++ sorted.filter (fun x => x.1 ≤ arr.size)).map
+              (fun (x : Nat × Nat) => Ev.prod x.2)
+          else
+          match sorted with
+          | (0, p) :: rest =>
+            if hintOf hints (match (sc.byProd[p]!)[sim.cursor[p]!]? with
+                | some sp => tag sp
+                | none => "") = "put"
+            then Ev.prod p :: others ++ rest.map (fun (x : Nat × Nat) => Ev.prod x.2)
+            else others ++ sorted.map (fun (x : Nat × Nat) => Ev.prod x.2)
+          | _ => others ++ sorted.map (fun (x : Nat × Nat) => Ev.prod x.2)
+        | none => evs
+      -- limited-discrepancy search: `disc` = how often a path may still deviate from the preferred goroutine at a tie
+      evs.zipIdx.foldl (fun (st : Search) (ei : Ev × Nat) =>
+        let e := ei.1
+        let disc' : Option (Option Nat) :=
+          if ei.2 = 0 then some disc
+          else match disc with
+            | none => some none
+            | some 0 => none
+            | some (d + 1) => some (some d)
+        if st.found || st.exhausted then st
+        else match disc' with
+        | none => st
+        | some disc' =>
+          let sim1 := process sc hints { sim with now := t } e
+          -- partial-order reduction: a producer whose run changed nothing shared but the log counter (all its sends left through
+          -- closeChan at once) commutes with the previous such producer at this instant; only the ascending order is explored
+          let pure := match e with
+            | Ev.prod _ => sim1.s.chan.length = sim.s.chan.length && sim1.s.closed = sim.s.closed &&
+                         sim1.blockedQ.length = sim.blockedQ.length && sim1.nput = sim.nput && sim1.ncons = sim.ncons
+            | _ => false
+          let skip := match e, lastPure with
+            | Ev.prod q, some (t', p) => pure && t' = t && decide (q < p)
+            | _, _ => false
+          if skip then st
+          else
+            let lp := match e with
+              | Ev.prod q => if pure then some (t, q) else none
+              | _ => none
+            solve sc hints impl disc' sim1 lp { st with budget := st.budget - 1 }) st
+
+def initSim (sc : Scn) (hints : List (String × String)) : Sim :=
   let nP := sc.byProd.size
   let n := sc.sends.size
   let sim : Sim := { s := init sc.K, cursor := Array.replicate nP 0, wake := Array.replicate nP none,
@@ -409,9 +533,17 @@ def simulate (sc : Scn) (hints : List (String × String)) : String :=
                      executed := Array.replicate n false, execN := Array.replicate n 0, recvN := Array.replicate n 0,
                      G := Array.replicate n none }
   -- every producer starts at instant 0
-  let sim := (List.range nP).foldl (fun sim p => procProducer sc hints p sim) sim
-  let sim := loop sc hints sim (40 * n + 100)
-  render sc sim
+  (List.range nP).foldl (fun sim p => procProducer sc hints p sim) sim
+
+/-- observed channel order: labels of the R section (without `^n` / `@t`) followed by the L section -/
+def parseArrivals (impl : String) : Array String :=
+  let secs := impl.splitOn " | "
+  let sec (name : String) : List String :=
+    match secs.find? (fun x => (words x).head? = some name) with
+    | some x => (words x).drop 1
+    | none => []
+  let strip (w : String) : String := (((w.splitOn "@").headD w).splitOn "^").headD w
+  ((sec "R").map strip ++ (sec "L")).toArray
 
 def stepLine (_ : Unit) (line : String) : Unit × String :=
   if line.isEmpty then ((), "") else
@@ -425,9 +557,25 @@ def stepLine (_ : Unit) (line : String) : Unit × String :=
   match parseScript script with
   | none => ((), "reject bad-script")
   | some sc =>
-    let m := simulate sc (parseHints impl)
-    if impl.isEmpty then ((), m)                       -- run mode (no observation): print the model's line
-    else if m = impl then ((), "ok") else ((), "reject " ++ m)
+    let wellFormed := impl.startsWith "S "
+    let obsF : Option Nat :=
+      match (impl.splitOn " | ").find? (fun x => (words x).head? = some "F") with
+      | some x => some (((words x).drop 1).foldl (fun n w => n + (w.toNat?.getD 0)) 0)
+      | none => none
+    let sc := if wellFormed then { sc with obsArr := some (parseArrivals impl), obsF := obsF } else sc
+    let hints := parseHints impl
+    let budget := 60000 + 400 * sc.sends.size
+    -- passes with 0, 1, 2, 3, 4 deviations from the preferred order, then the unrestricted search (only that one can reject)
+    let sim0 := initSim sc hints
+    -- (each restricted pass with both tie heuristics: arriving sends first / arriving sends last)
+    let r := [some 0, some 1, some 2, some 3, some 4, none].foldl (fun (r : Search) d =>
+      let r := if r.found || r.exhausted then r else solve sc hints impl d sim0 none r
+      if r.found || r.exhausted || d.isNone then r else solve { sc with putLast := true } hints impl d sim0 none r)
+      { budget := budget }
+    if impl.isEmpty then ((), r.cand.getD "<no outcome>")            -- run mode: print a model line
+    else if r.found then ((), "ok")
+    else if r.exhausted then ((), "ok unchecked search-budget-exhausted")   -- never reject on a truncated search
+    else ((), "reject " ++ r.cand.getD "<every order contradicts the observation>")
 
 def main (_args : List String) : IO Unit := do
   lineLoop (← IO.getStdin) (← IO.getStdout) stepLine ()
